@@ -129,6 +129,12 @@ int main(int argc, char** argv) {
     report("exitpt.guard-rejects", r != 0 && !has(g_log, "NT") && !has(g_log, "NTsub") && count(g_log, "gL") == 1 && !has(g_log, "a7"), "C06,C13,C09", "ret=" + std::to_string(r) + " log=[" + g_log + "]"); }
   { XTop m; m.start(); g_log.clear(); leave l1(true); int r = (int)m.process_event(l1);
     report("exitpt.taken", (r & 1) && count(g_log, "a7") == 1 && !has(g_log, "NT"), "C09,C13,C07", "ret=" + std::to_string(r) + " log=[" + g_log + "]"); }
+#if !IS_MP11 && !defined(CFG_back11)
+  // a machine built from user-supplied substate instances (states_ << Sub()): the submachine is contained all the same -
+  // an unmatched event is reported by the machine that received it, never by the submachine (C06)
+  { g_bits = 0; Top m(msm::back::states_ << Sub()); m.start(); g_log.clear(); other ov_; int r = (int)m.process_event(ov_);
+    report("unmatched.states-expression-constructor", (r == 0) && count(g_log, "NT") == 1 && count(g_log, "NTsub") == 0 && m.template get_state<Sub&>().is_contained(), "C06,C07", "ret=" + std::to_string(r) + " log=[" + g_log + "]"); }
+#endif
 #if !defined(CFG_back11)
   { L1 m; m.start(); g_log.clear(); deep d_; int r = (int)m.process_event(d_);
     report("three-levels.forwarded-to-the-innermost", (r & 1) && g_log == "a8 ", "C07,C01,C13", "ret=" + std::to_string(r) + " log=[" + g_log + "]"); }
